@@ -263,6 +263,15 @@ func c12(run *core.Run, replay string) {
 				cases = append(cases, &entCase{Codec: codec, Shape: []string{"staircase", "staircase2"}[sd%2], Size: sz, Seed: run.Seed*29 + int64(sd*11+q), Prefix: 2 + (q+sd)%12})
 			}
 		}
+		// unevenly compressible quarters of a chunk (codecs that code a chunk as several independent fragments)
+		for q, sz := range []int{16384, 15000, 16383, 32768, 37768, 65536 + 15100, 8192} {
+			for sd := 0; sd < run.Pick(4, 12); sd++ {
+				if kz.Heavy(codec) && (sd > 0 || sz > 20000) {
+					continue
+				}
+				cases = append(cases, &entCase{Codec: codec, Shape: "clusterq", Size: sz, Seed: run.Seed*37 + int64(sd), Prefix: 2 + (q+sd)%12})
+			}
+		}
 		if codec == "HUFFMAN" {
 			// chunk totals exactly equal to the scale the code length limiter renormalises to (2048), many histograms
 			for sd := 0; sd < run.Pick(150, 1500); sd++ {
